@@ -852,7 +852,7 @@ Proof.
     rewrite IH by assumption. reflexivity.
 Qed.
 
-Lemma length_fm l : (List.length l <= List.length (flat_map (cons 46) l))%nat.
+Lemma length_fm (l : list bs) : (List.length l <= List.length (flat_map (cons 46%N) l))%nat.
 Proof.
   induction l as [|y l IH]; cbn [flat_map List.length]; [lia|].
   rewrite app_length. cbn [List.length]. lia.
@@ -1057,3 +1057,535 @@ Proof.
   intros s H. destruct (valid_struct s H) as (p & Hp & E).
   exists (parsed_of p). rewrite E. apply xparse_render. exact Hp.
 Qed.
+
+(* ====================================================================== *)
+(* 6. the declarative reading succeeds on structured strings              *)
+(* ====================================================================== *)
+
+Definition pre_ids (o : option (bs * list bs)) : list ident :=
+  match o with None => [] | Some (x, l) => map to_ident (x :: l) end.
+
+Definition version_of (p : parts) : version :=
+  mk_version (dec_val (pt_major p)) (dec_val (pt_minor p)) (dec_val (pt_patch p))
+             (pre_ids (pt_pre p)).
+
+Definition core_text (p : parts) : bs := pt_major p ++ 46 :: pt_minor p ++ 46 :: pt_patch p.
+
+Lemma render_split p :
+  render p = (core_text p ++ render_opt 45 (pt_pre p)) ++ render_opt 43 (pt_build p).
+Proof.
+  unfold render, core_text. rewrite <- !app_assoc. cbn [app]. rewrite <- !app_assoc.
+  cbn [app]. reflexivity.
+Qed.
+
+Lemma core_text_nochar c p :
+  good_num (pt_major p) -> good_num (pt_minor p) -> good_num (pt_patch p) ->
+  is_digit c = false -> c <> 46 -> nochar c (core_text p).
+Proof.
+  intros H1 H2 H3 Hc Hc46. unfold core_text.
+  apply nochar_app; split; [apply good_num_nochar; assumption|].
+  apply nochar_cons; split; [congruence|].
+  apply nochar_app; split; [apply good_num_nochar; assumption|].
+  apply nochar_cons; split; [congruence|].
+  apply good_num_nochar; assumption.
+Qed.
+
+Lemma pre_text_nochar43 o : opt_wf pre_ident o -> nochar 43 (render_opt 45 o).
+Proof.
+  destruct o as [[x l]|]; cbn [opt_wf render_opt]; [|intros _; apply nochar_nil].
+  intros [Hx Hl]. apply nochar_cons; split; [discriminate|].
+  apply nochar_dotted; [discriminate| |].
+  - apply pre_ident_nochar; [assumption|exact ic43].
+  - apply Forall_pre_nochar; [assumption|exact ic43].
+Qed.
+
+Lemma split_core p :
+  good_num (pt_major p) -> good_num (pt_minor p) -> good_num (pt_patch p) ->
+  split_on 46 (core_text p) = [pt_major p; pt_minor p; pt_patch p].
+Proof.
+  intros H1 H2 H3. unfold core_text.
+  rewrite split_on_app by (apply good_num_nochar; [assumption|exact dg46]).
+  rewrite split_on_app by (apply good_num_nochar; [assumption|exact dg46]).
+  rewrite split_on_one by (apply good_num_nochar; [assumption|exact dg46]).
+  reflexivity.
+Qed.
+
+Lemma after_pre p :
+  good_num (pt_major p) -> good_num (pt_minor p) -> good_num (pt_patch p) ->
+  opt_wf pre_ident (pt_pre p) ->
+  match after 45 (core_text p ++ render_opt 45 (pt_pre p)) with
+  | None => []
+  | Some t => map to_ident (split_on 46 t)
+  end = pre_ids (pt_pre p).
+Proof.
+  intros H1 H2 H3 Hpre.
+  assert (Hc : nochar 45 (core_text p))
+    by (apply core_text_nochar; [assumption|assumption|assumption|exact dg45|discriminate]).
+  destruct (pt_pre p) as [[x l]|]; cbn [render_opt pre_ids opt_wf] in *.
+  - rewrite after_app by exact Hc. destruct Hpre as [Hx Hl].
+    rewrite split_on_dotted; [reflexivity| |].
+    + apply pre_ident_nochar; [assumption|exact ic46].
+    + apply Forall_pre_nochar; [assumption|exact ic46].
+  - rewrite app_nil_r, after_nochar by exact Hc. reflexivity.
+Qed.
+
+Theorem decode_render p : wf p -> decode (render p) = Some (version_of p).
+Proof.
+  intros (Hmaj & Hmi & Hpa & Hpre & Hbuild). unfold decode.
+  rewrite render_split.
+  rewrite before_app; [| |apply starts_render_opt].
+  2:{ apply nochar_app; split.
+      - apply core_text_nochar; [assumption|assumption|assumption|exact dg43|discriminate].
+      - apply pre_text_nochar43; assumption. }
+  rewrite before_app; [| |apply starts_render_opt].
+  2:{ apply core_text_nochar; [assumption|assumption|assumption|exact dg45|discriminate]. }
+  rewrite (after_pre p Hmaj Hmi Hpa Hpre).
+  rewrite (split_core p Hmaj Hmi Hpa). reflexivity.
+Qed.
+
+Theorem valid_decodes : forall s, sv_valid s = true -> exists v, decode (bytes s) = Some v.
+Proof.
+  intros s H. destruct (valid_struct s H) as (p & Hp & E).
+  exists (version_of p). rewrite E. apply decode_render. exact Hp.
+Qed.
+
+(* ====================================================================== *)
+(* 7. semver.Compare computes the SemVer precedence                       *)
+(* ====================================================================== *)
+
+Lemma cmp_ident_text_not_eq a b : cmp_ident_text a b <> Eq.
+Proof.
+  unfold cmp_ident_text.
+  destruct (is_num a), (is_num b); cbn [Bool.eqb negb];
+    destruct (Nat.compare (List.length a) (List.length b)), (bs_cmp a b); discriminate.
+Qed.
+
+Lemma pre_ident_good_num a : pre_ident a -> is_num a = true -> good_num a.
+Proof.
+  intros (_ & Hne & H0) Hn. split; [assumption|split; [assumption|]]. apply H0. assumption.
+Qed.
+
+Lemma cmp_ident_text_spec a b :
+  pre_ident a -> pre_ident b -> a <> b ->
+  cmp_ident_text a b = ident_cmp (to_ident a) (to_ident b).
+Proof.
+  intros Ha Hb Hne. unfold cmp_ident_text, to_ident.
+  destruct (is_num a) eqn:Ea, (is_num b) eqn:Eb; cbn [Bool.eqb negb ident_cmp]; try reflexivity.
+  - apply (num_text_cmp_spec a b); [apply pre_ident_good_num; assumption| |assumption].
+    apply pre_ident_good_num; assumption.
+  - destruct (bs_cmp a b) eqn:E; try reflexivity.
+    apply bs_cmp_eq_iff in E. contradiction.
+Qed.
+
+Lemma ident_cmp_refl a : ident_cmp a a = Eq.
+Proof. apply ident_cmp_eq_iff. reflexivity. Qed.
+
+(* the loop of comparePrerelease on two different dotted texts *)
+Lemma cmp_pre_loop_spec : forall f l m a b cx cy,
+  Forall pre_ident (a :: l) -> Forall pre_ident (b :: m) ->
+  dotted a l <> dotted b m -> (List.length l < f)%nat ->
+  cmp_pre_loop f (cx :: dotted a l) (cy :: dotted b m)
+  = idents_cmp (map to_ident (a :: l)) (map to_ident (b :: m)).
+Proof.
+  induction f as [|f IH]; intros l m a b cx cy Hal Hbm Hne Hf; [lia|].
+  inversion Hal as [|? ? Ha Hl]; subst. inversion Hbm as [|? ? Hb Hm]; subst.
+  cbn [cmp_pre_loop]. unfold dotted at 1 2.
+  rewrite (next_ident_app a (flat_map (cons 46) l))
+    by first [apply starts_fm | apply pre_ident_nochar; [assumption|exact ic46]].
+  rewrite (next_ident_app b (flat_map (cons 46) m))
+    by first [apply starts_fm | apply pre_ident_nochar; [assumption|exact ic46]].
+  cbn [map idents_cmp].
+  destruct (bs_eqb a b) eqn:E; cbn [negb].
+  - (* same identifier: go on *)
+    apply bs_eqb_eq in E. subst b. rewrite ident_cmp_refl.
+    destruct l as [|x l], m as [|y m].
+    + exfalso. apply Hne. reflexivity.
+    + cbn [flat_map map idents_cmp]. destruct f; reflexivity.
+    + cbn [List.length] in Hf. destruct f as [|f]; [lia|]. reflexivity.
+    + rewrite !fm_cons. cbn [List.length] in Hf.
+      apply IH; try assumption; [|lia].
+      intros E. apply Hne. rewrite !dotted_cons, E. reflexivity.
+  - (* different identifiers decide *)
+    apply bs_eqb_neq in E. rewrite <- (cmp_ident_text_spec a b Ha Hb E).
+    pose proof (cmp_ident_text_not_eq a b) as Hn.
+    destruct (cmp_ident_text a b); [congruence|reflexivity|reflexivity].
+Qed.
+
+Lemma pre_ids_of_text o :
+  opt_wf pre_ident o ->
+  pre_ids o = match render_opt 45 o with
+              | [] => []
+              | _ :: t => map to_ident (split_on 46 t)
+              end.
+Proof.
+  destruct o as [[x l]|]; cbn [opt_wf render_opt pre_ids]; [|reflexivity].
+  intros [Hx Hl]. rewrite split_on_dotted; [reflexivity| |].
+  - apply pre_ident_nochar; [assumption|exact ic46].
+  - apply Forall_pre_nochar; [assumption|exact ic46].
+Qed.
+
+Lemma compare_prerelease_spec o1 o2 :
+  opt_wf pre_ident o1 -> opt_wf pre_ident o2 ->
+  compare_prerelease (render_opt 45 o1) (render_opt 45 o2) = pre_cmp (pre_ids o1) (pre_ids o2).
+Proof.
+  intros H1 H2. unfold compare_prerelease.
+  destruct (bs_eqb (render_opt 45 o1) (render_opt 45 o2)) eqn:E.
+  - apply bs_eqb_eq in E.
+    rewrite (pre_ids_of_text o1 H1), (pre_ids_of_text o2 H2), E.
+    symmetry. apply pre_cmp_eq_iff. reflexivity.
+  - apply bs_eqb_neq in E.
+    destruct o1 as [[x l]|], o2 as [[y m]|]; cbn [render_opt pre_ids opt_wf] in *.
+    + destruct H1 as [Hx Hl], H2 as [Hy Hm].
+      rewrite cmp_pre_loop_spec.
+      * reflexivity.
+      * constructor; assumption.
+      * constructor; assumption.
+      * intros E'. apply E. rewrite E'. reflexivity.
+      * cbn [List.length]. unfold dotted. rewrite app_length.
+        pose proof (length_fm l). lia.
+    + reflexivity.
+    + reflexivity.
+    + exfalso. apply E. reflexivity.
+Qed.
+
+Lemma compare_parsed_render p q :
+  wf p -> wf q -> compare_parsed (parsed_of p) (parsed_of q) = prec_cmp (version_of p) (version_of q).
+Proof.
+  intros (Hp1 & Hp2 & Hp3 & Hp4 & _) (Hq1 & Hq2 & Hq3 & Hq4 & _).
+  unfold compare_parsed, parsed_of, prec_cmp, version_of.
+  cbn [p_major p_minor p_patch p_pre p_build v_major v_minor v_patch v_pre].
+  rewrite !compare_int_spec by assumption.
+  rewrite compare_prerelease_spec by assumption.
+  reflexivity.
+Qed.
+
+(* MAIN: on valid version strings, x/mod/semver.Compare is the SemVer 2.0.0
+   precedence of the decoded versions *)
+Theorem compare_is_precedence : forall v w,
+  sv_valid v = true -> sv_valid w = true ->
+  xcompare (bytes v) (bytes w) = prec_of v w.
+Proof.
+  intros v w Hv Hw.
+  destruct (valid_struct v Hv) as (p & Hp & Ev).
+  destruct (valid_struct w Hw) as (q & Hq & Ew).
+  unfold xcompare, prec_of. rewrite Ev, Ew.
+  rewrite !xparse_render, !decode_render by assumption.
+  apply compare_parsed_render; assumption.
+Qed.
+
+Corollary compare_plugin_version_spec : forall v w,
+  compare_plugin_version v w =
+  if sv_valid v && sv_valid w then Some (prec_of v w) else None.
+Proof.
+  intros v w. unfold compare_plugin_version.
+  destruct (sv_valid v) eqn:Hv; cbn [negb andb]; [|reflexivity].
+  destruct (sv_valid w) eqn:Hw; cbn [negb]; [|reflexivity].
+  rewrite compare_is_precedence by assumption. reflexivity.
+Qed.
+
+(* the same statement through the inductive relation: the implementation says
+   "lower" exactly when the decoded versions are in [prec_lt], etc. *)
+Corollary compare_plugin_version_lt : forall v w a b,
+  sv_valid v = true -> sv_valid w = true ->
+  decode (bytes v) = Some a -> decode (bytes w) = Some b ->
+  (compare_plugin_version v w = Some Lt <-> prec_lt a b) /\
+  (compare_plugin_version v w = Some Gt <-> prec_lt b a) /\
+  (compare_plugin_version v w = Some Eq <-> a = b).
+Proof.
+  intros v w a b Hv Hw Ea Eb. rewrite compare_plugin_version_spec, Hv, Hw. cbn [andb].
+  unfold prec_of. rewrite Ea, Eb.
+  rewrite <- prec_cmp_lt_iff, <- prec_cmp_gt_iff, <- prec_cmp_eq_iff.
+  repeat split; intros H; congruence.
+Qed.
+
+Corollary sv_higher_spec : forall v w,
+  sv_higher v w = true <->
+  exists a b, sv_valid v = true /\ sv_valid w = true /\
+              decode (bytes v) = Some a /\ decode (bytes w) = Some b /\ prec_lt b a.
+Proof.
+  intros v w. unfold sv_higher. rewrite !andb_true_iff. split.
+  - intros [[Hv Hw] H].
+    destruct (valid_decodes v Hv) as (a & Ea). destruct (valid_decodes w Hw) as (b & Eb).
+    exists a, b. repeat split; try assumption.
+    apply prec_cmp_gt_iff. unfold prec_of in H. rewrite Ea, Eb in H.
+    destruct (prec_cmp a b); [discriminate|discriminate|reflexivity].
+  - intros (a & b & Hv & Hw & Ea & Eb & Hlt). repeat split; try assumption.
+    unfold prec_of. rewrite Ea, Eb. apply prec_cmp_gt_iff in Hlt. rewrite Hlt. reflexivity.
+Qed.
+
+(* ====================================================================== *)
+(* 7b. converse of section 3                                              *)
+(* ====================================================================== *)
+
+(* ---- converse: every structured string is accepted by the regular
+   expression, so [wf]/[render] is exactly the language of the Go regexp ---- *)
+Lemma lang_cat_eps a s : lang (CCat a CEps) s <-> lang a s.
+Proof.
+  rewrite lang_cat_inv. split.
+  - intros (s1 & s2 & -> & H1 & H2). apply lang_eps_inv in H2. subst. rewrite app_nil_r. exact H1.
+  - intros H. exists s, []. rewrite app_nil_r. repeat split; [assumption|constructor].
+Qed.
+
+Lemma lang_eps_cat a s : lang (CCat CEps a) s <-> lang a s.
+Proof.
+  rewrite lang_cat_inv. split.
+  - intros (s1 & s2 & -> & H1 & H2). apply lang_eps_inv in H1. subst. exact H2.
+  - intros H. exists [], s. repeat split; [constructor|assumption].
+Qed.
+
+Lemma lang_cons_cls rs a c s : in_cls c rs = true -> lang a s -> lang (CCat (CCls rs) a) (c :: s).
+Proof.
+  intros Hc Hs. change (c :: s) with ([c] ++ s). constructor; [constructor; exact Hc|exact Hs].
+Qed.
+
+Lemma digit_cls c : is_digit c = true -> in_cls c [(48,57)] = true.
+Proof. rewrite is_digit_spec, in_cls_cons. intros H. left. exact H. Qed.
+
+Lemma digit_nz_cls c : is_digit c = true -> c <> 48 -> in_cls c [(49,57)] = true.
+Proof. rewrite is_digit_spec, in_cls_cons. intros H H0. left. lia. Qed.
+
+Lemma ic_cls c : is_ident_char c = true -> in_cls c [(45,45); (48,57); (65,90); (97,122)] = true.
+Proof. rewrite is_ident_char_spec, !in_cls_cons. intros H. lia. Qed.
+
+Lemma letter_cls c :
+  is_ident_char c = true -> is_digit c = false -> in_cls c [(45,45); (65,90); (97,122)] = true.
+Proof.
+  rewrite is_ident_char_spec, !in_cls_cons. intros H Hd.
+  destruct H as [H|[H|[H|H]]]; try lia.
+  rewrite (proj2 (is_digit_spec c) H) in Hd. discriminate.
+Qed.
+
+Lemma digits_lang s : is_num s = true -> lang c_digits s.
+Proof.
+  intros H. apply lang_star_cls. apply forallb_Forall_iff in H.
+  eapply Forall_impl; [|exact H]. apply digit_cls.
+Qed.
+
+Lemma idchars_lang s : all_ident s -> lang (CStar c_icls) s.
+Proof.
+  intros H. apply lang_star_cls. apply forallb_Forall_iff in H.
+  eapply Forall_impl; [|exact H]. apply ic_cls.
+Qed.
+
+Lemma good_num_cases s :
+  good_num s -> s = [48] \/ exists c t, s = c :: t /\ is_digit c = true /\ c <> 48 /\ is_num t = true.
+Proof.
+  intros (Hn & Hne & H0). destruct s as [|c t]; [congruence|].
+  rewrite is_num_cons, andb_true_iff in Hn. destruct Hn as [Hc Ht].
+  destruct (N.eq_dec c 48) as [->|Hc0].
+  - left. rewrite (H0 t eq_refl). reflexivity.
+  - right. exists c, t. auto.
+Qed.
+
+Lemma good_num_lang s : good_num s -> lang c_num s.
+Proof.
+  intros H. apply good_num_cases in H. destruct H as [->|(c & t & -> & Hc & Hc0 & Ht)]; unfold c_num.
+  - apply L_altl. constructor. reflexivity.
+  - apply L_altr, L_altl. apply lang_cons_cls; [apply digit_nz_cls; assumption|].
+    apply lang_cat_eps. apply digits_lang. exact Ht.
+Qed.
+
+Lemma alnum_split s :
+  all_ident s -> is_num s = false ->
+  exists ds c rest, s = ds ++ c :: rest /\ is_num ds = true /\
+                    is_ident_char c = true /\ is_digit c = false /\ all_ident rest.
+Proof.
+  induction s as [|a s IH]; intros Hs Hn; [discriminate|].
+  apply all_ident_cons in Hs. destruct Hs as [Ha Hs]. rewrite is_num_cons in Hn.
+  destruct (is_digit a) eqn:Ed.
+  - cbn [andb] in Hn. destruct (IH Hs Hn) as (ds & c & rest & -> & H1 & H2 & H3 & H4).
+    exists (a :: ds), c, rest. repeat split; try assumption.
+    rewrite is_num_cons, Ed, H1. reflexivity.
+  - exists [], a, s. repeat split; assumption.
+Qed.
+
+Lemma pre_ident_lang s : pre_ident s -> lang c_preid s.
+Proof.
+  intros H. destruct (is_num s) eqn:En.
+  - apply pre_ident_good_num in H; [|exact En]. apply good_num_cases in H.
+    destruct H as [->|(c & t & -> & Hc & Hc0 & Ht)]; unfold c_preid.
+    + apply L_altl. constructor. reflexivity.
+    + apply L_altr, L_altl. apply lang_cons_cls; [apply digit_nz_cls; assumption|].
+      apply lang_cat_eps. apply digits_lang. exact Ht.
+  - destruct H as (Hs & _ & _).
+    destruct (alnum_split s Hs En) as (ds & c & rest & -> & Hds & Hc & Hcd & Hrest).
+    unfold c_preid. apply L_altr, L_altr, L_altl. constructor; [apply digits_lang; exact Hds|].
+    apply lang_cons_cls; [apply letter_cls; assumption|].
+    apply lang_cat_eps. apply idchars_lang. exact Hrest.
+Qed.
+
+Lemma build_ident_lang s : build_ident s -> lang c_bid s.
+Proof.
+  intros (Hs & Hne). destruct s as [|c t]; [congruence|].
+  apply all_ident_cons in Hs. destruct Hs as [Hc Ht]. unfold c_bid.
+  apply lang_cons_cls; [apply ic_cls; exact Hc|apply idchars_lang; exact Ht].
+Qed.
+
+Lemma lang_star_sep_intro sep body l :
+  Forall (lang body) l ->
+  lang (CStar (CCat (CCls [(sep, sep)]) (CCat body CEps))) (flat_map (cons sep) l).
+Proof.
+  intros H. induction H as [|y l Hy _ IH]; cbn [flat_map]; [constructor|].
+  constructor; [|exact IH]. apply lang_cons_cls.
+  - apply in_cls_cons. left. lia.
+  - apply lang_cat_eps. exact Hy.
+Qed.
+
+Lemma render_opt_lang sep body (P : bs -> Prop) o :
+  (forall w, P w -> lang body w) -> opt_wf P o ->
+  lang (CAlt CEps (CCat (CCls [(sep, sep)])
+         (CCat (CCat body (CCat (CStar (CCat c_dot (CCat body CEps))) CEps)) CEps)))
+       (render_opt sep o).
+Proof.
+  intros HP Ho. destruct o as [[x l]|]; cbn [opt_wf render_opt] in *.
+  - destruct Ho as [Hx Hl]. apply L_altr. apply lang_cons_cls; [apply in_cls_cons; left; lia|].
+    apply lang_cat_eps. unfold dotted. constructor; [apply HP; exact Hx|].
+    apply lang_cat_eps. apply lang_star_sep_intro.
+    eapply Forall_impl; [|exact Hl]. exact HP.
+  - apply L_altl. constructor.
+Qed.
+
+Lemma render_lang p : wf p -> lang c_semver (render p).
+Proof.
+  intros (Hmaj & Hmi & Hpa & Hpre & Hbuild). unfold c_semver, render.
+  apply lang_eps_cat.
+  constructor; [apply good_num_lang; exact Hmaj|].
+  apply lang_cons_cls; [reflexivity|].
+  constructor; [apply good_num_lang; exact Hmi|].
+  apply lang_cons_cls; [reflexivity|].
+  constructor; [apply good_num_lang; exact Hpa|].
+  constructor; [apply (render_opt_lang 45 c_preid pre_ident); [exact pre_ident_lang|exact Hpre]|].
+  apply lang_cat_inv. exists (render_opt 43 (pt_build p)), []. rewrite app_nil_r.
+  split; [reflexivity|split].
+  - apply (render_opt_lang 43 c_bid build_ident); [exact build_ident_lang|exact Hbuild].
+  - apply lang_eps_cat. constructor.
+Qed.
+
+(* the Go regular expression accepts exactly the structured strings *)
+Theorem sv_valid_iff s : sv_valid s = true <-> exists p, wf p /\ bytes s = render p.
+Proof.
+  split; [apply valid_struct|]. intros (p & Hp & E).
+  unfold sv_valid. rewrite matches_lang, core_semver, E. apply render_lang. exact Hp.
+Qed.
+
+(* ====================================================================== *)
+(* 8. build metadata is ignored                                           *)
+(* ====================================================================== *)
+
+Lemma decode_before s : decode s = decode (before 43 s).
+Proof.
+  assert (H : before 43 (before 43 s) = before 43 s).
+  { induction s as [|c s IH]; cbn [before]; [reflexivity|].
+    destruct (c =? 43) eqn:E; [reflexivity|]. cbn [before]. rewrite E, IH. reflexivity. }
+  unfold decode. rewrite H. reflexivity.
+Qed.
+
+Theorem decode_ignores_build : forall s b, ~ In 43 s -> decode (s ++ 43 :: b) = decode s.
+Proof.
+  intros s b Hs. rewrite (decode_before (s ++ 43 :: b)), (decode_before s).
+  rewrite before_app by first [exact Hs | right; eexists; reflexivity].
+  rewrite before_nochar by exact Hs. reflexivity.
+Qed.
+
+(* two strings that agree before their first '+' have the same precedence
+   with respect to everything, and are equal in precedence to one another *)
+Theorem prec_of_build_irrelevant : forall v v' w,
+  before 43 (bytes v) = before 43 (bytes v') ->
+  prec_of v w = prec_of v' w /\ prec_of w v = prec_of w v'.
+Proof.
+  intros v v' w E. unfold prec_of.
+  rewrite (decode_before (bytes v)), (decode_before (bytes v')), E. split; reflexivity.
+Qed.
+
+Theorem prec_of_ignores_build : forall v v',
+  before 43 (bytes v) = before 43 (bytes v') -> prec_of v v' = Eq.
+Proof.
+  intros v v' E. unfold prec_of.
+  rewrite (decode_before (bytes v)), (decode_before (bytes v')), E.
+  destruct (decode (before 43 (bytes v'))) as [a|]; [|reflexivity].
+  apply prec_cmp_eq_iff. reflexivity.
+Qed.
+
+(* ... and so the implementation reports "equal" for two valid versions that
+   differ only in build metadata *)
+Corollary compare_plugin_version_ignores_build : forall v v',
+  sv_valid v = true -> sv_valid v' = true ->
+  before 43 (bytes v) = before 43 (bytes v') ->
+  compare_plugin_version v v' = Some Eq.
+Proof.
+  intros v v' Hv Hv' E. rewrite compare_plugin_version_spec, Hv, Hv'. cbn [andb].
+  rewrite (prec_of_ignores_build v v' E). reflexivity.
+Qed.
+
+Lemma bytes_app s t : bytes (s ++ t)%string = bytes s ++ bytes t.
+Proof.
+  unfold bytes. induction s as [|a s IH]; cbn; [reflexivity|]. f_equal. exact IH.
+Qed.
+
+(* string form: appending "+meta" to a '+'-free string does not change its
+   precedence class *)
+Corollary prec_of_plus_suffix : forall v m m',
+  ~ In 43 (bytes v) ->
+  prec_of (v ++ "+" ++ m)%string (v ++ "+" ++ m')%string = Eq /\
+  prec_of (v ++ "+" ++ m)%string v = Eq.
+Proof.
+  intros v m m' Hv.
+  assert (E : forall k, before 43 (bytes (v ++ "+" ++ k)%string) = bytes v).
+  { intros k. rewrite bytes_app. change (bytes ("+" ++ k)%string) with (43 :: bytes k).
+    apply before_app; [exact Hv|right; eexists; reflexivity]. }
+  split; apply prec_of_ignores_build.
+  - rewrite !E. reflexivity.
+  - rewrite E. symmetry. apply before_nochar. exact Hv.
+Qed.
+
+(* ====================================================================== *)
+(* 9. examples: the ordering chain of SemVer 2.0.0 section 11             *)
+(* ====================================================================== *)
+
+Example ex_chain_1 : prec_of "1.0.0-alpha" "1.0.0-alpha.1" = Lt.        Proof. vm_compute. reflexivity. Qed.
+Example ex_chain_2 : prec_of "1.0.0-alpha.1" "1.0.0-alpha.beta" = Lt.   Proof. vm_compute. reflexivity. Qed.
+Example ex_chain_3 : prec_of "1.0.0-alpha.beta" "1.0.0-beta" = Lt.      Proof. vm_compute. reflexivity. Qed.
+Example ex_chain_4 : prec_of "1.0.0-beta" "1.0.0-beta.2" = Lt.          Proof. vm_compute. reflexivity. Qed.
+Example ex_chain_5 : prec_of "1.0.0-beta.2" "1.0.0-beta.11" = Lt.       Proof. vm_compute. reflexivity. Qed.
+Example ex_chain_6 : prec_of "1.0.0-beta.11" "1.0.0-rc.1" = Lt.         Proof. vm_compute. reflexivity. Qed.
+Example ex_chain_7 : prec_of "1.0.0-rc.1" "1.0.0" = Lt.                 Proof. vm_compute. reflexivity. Qed.
+Example ex_chain_8 : prec_of "1.0.0" "2.0.0" = Lt.                      Proof. vm_compute. reflexivity. Qed.
+Example ex_chain_9 : prec_of "2.0.0" "10.0.0" = Lt.                     Proof. vm_compute. reflexivity. Qed.
+Example ex_build_eq : prec_of "1.0.0+a" "1.0.0+b" = Eq.                 Proof. vm_compute. reflexivity. Qed.
+Example ex_build_pre : prec_of "1.0.0-rc.1+x.y" "1.0.0-rc.1" = Eq.      Proof. vm_compute. reflexivity. Qed.
+Example ex_rev : prec_of "10.0.0" "2.0.0" = Gt.                         Proof. vm_compute. reflexivity. Qed.
+
+(* the implementation agrees on the same chain (this also follows from
+   compare_plugin_version_spec) *)
+Example ex_impl_chain :
+  map (fun vw => compare_plugin_version (fst vw) (snd vw))
+    [("1.0.0-alpha", "1.0.0-alpha.1"); ("1.0.0-alpha.1", "1.0.0-alpha.beta");
+     ("1.0.0-alpha.beta", "1.0.0-beta"); ("1.0.0-beta", "1.0.0-beta.2");
+     ("1.0.0-beta.2", "1.0.0-beta.11"); ("1.0.0-beta.11", "1.0.0-rc.1");
+     ("1.0.0-rc.1", "1.0.0"); ("1.0.0", "2.0.0"); ("2.0.0", "10.0.0");
+     ("1.0.0+a", "1.0.0+b"); ("01.0.0", "1.0.0"); ("1.0", "1.0.0")]
+  = [Some Lt; Some Lt; Some Lt; Some Lt; Some Lt; Some Lt; Some Lt; Some Lt; Some Lt;
+     Some Eq; None; None].
+Proof. vm_compute. reflexivity. Qed.
+
+Print Assumptions run_re_lang.
+Print Assumptions valid_struct.
+Print Assumptions sv_valid_iff.
+Print Assumptions valid_parses.
+Print Assumptions valid_decodes.
+Print Assumptions compare_is_precedence.
+Print Assumptions compare_plugin_version_spec.
+Print Assumptions compare_plugin_version_lt.
+Print Assumptions sv_higher_spec.
+Print Assumptions prec_cmp_lt_iff.
+Print Assumptions prec_cmp_gt_iff.
+Print Assumptions prec_cmp_eq_iff.
+Print Assumptions prec_lt_irrefl.
+Print Assumptions prec_lt_trans.
+Print Assumptions prec_lt_total.
+Print Assumptions prec_of_antisym.
+Print Assumptions decode_ignores_build.
+Print Assumptions prec_of_build_irrelevant.
+Print Assumptions prec_of_ignores_build.
+Print Assumptions compare_plugin_version_ignores_build.
+Print Assumptions prec_of_plus_suffix.
